@@ -218,6 +218,48 @@ def run(c) -> CaseResult:
     return res
 
 
+# ------------------------------------------------------------------ many instances of ONE model class in one process
+
+
+@st.composite
+def repeat_cases(draw, tier):
+    return dict(prog=draw(dsl.quant_programs(max_ops=5)), seed=draw(st.integers(0, 10**6)), n=draw(st.sampled_from([10, 12])),
+                fwd=dict(name="E4M3", rounding="nearest", srbits=0), bwd=dict(name="E5M2", rounding="nearest", srbits=0))
+
+
+def run_repeat(c) -> CaseResult:
+    """state carried over between transforms: the k-th transformed instance of the same class (same forward code object) must
+    still be quantised (TorchDynamo falls back to eager silently once a code object exceeds its recompile limit)"""
+    res = CaseResult()
+    prog = c["prog"]
+    fwd, bwd = mk_fmt(c["fwd"]), mk_fmt(c["bwd"])
+    cls = dsl.build_class(prog)
+    n_q = sum(s["op"] in ("linear", "ulinear", "sdpa") for s in prog["stmts"])
+    for k in range(c["n"]):
+        m = dsl.build_module(prog, c["seed"] + k, cls=cls)
+        inputs = dsl.make_inputs(prog, c["seed"] + k)
+        try:
+            qm = simulate_format(m, fwd, bwd)
+            fl = prep(inputs)
+            y = qm(**fl)
+            g = torch.autograd.grad(y, [fl[k_] for k_ in FLOAT_INPUTS if k_ in fl] + list(qm.parameters()), allow_unused=True)
+        except Exception as e:  # noqa: BLE001
+            res.fail(exc_bucket("C15.repeat.raises", e)[:300], f"instance #{k + 1}: {type(e).__name__}: {str(e)[:200]}")
+            return res
+        fr = prep(inputs)
+        mode = dsl.quantised(dsl.Plain, fwd, bwd)
+        yr = dsl.evaluate(prog, dsl.named_tensors(qm), fr, mode)
+        gr = torch.autograd.grad(yr, [fr[k_] for k_ in FLOAT_INPUTS if k_ in fr] + list(qm.parameters()), allow_unused=True)
+        if not bitequal(y.detach(), yr.detach()) or not all(bitequal(a, b) for a, b in zip(g, gr)):
+            res.fail("C15.repeat.not-transformed" if n_q else "C15.repeat.value",
+                     f"instance #{k + 1} of the same model class differs from the hand-quantised reference (earlier instances agreed): "
+                     f"the transform is not applied any more\n{cls._verif_source}")
+            return res
+    res.nontrivial = n_q >= 1
+    res.labels.append("same-class-x%d" % c["n"])
+    return res
+
+
 # ------------------------------------------------------------------ primitives quantise_fwd / quantise_bwd
 
 
@@ -263,6 +305,7 @@ def run_prim(c) -> CaseResult:
 CHECK = Check(
     id="C15",
     parts=[Part("programs", run, strategy=cases, budget={"quick": 200, "thorough": 5000}),
+           Part("repeat", run_repeat, strategy=repeat_cases, budget={"quick": 8, "thorough": 80}),
            Part("primitives", run_prim, strategy=prim_cases, budget={"quick": 400, "thorough": 6000})],
     rule=("programs: Hypothesis-generated modules (depth 1-12; linear with bias positional / omitted / keyword / all-keyword / nn.Linear, "
           "attention with mask positional or keyword / causal / dropout_p=0, U.linear / U.linear_readout / U.scaled_dot_product_attention, "
@@ -270,7 +313,7 @@ CHECK = Check(
           "x format pairs from {E4M3,E5M2,E3M2,E5M10,E2M1,E8M23} with nearest or stochastic rounding (random source pinned by a substituted "
           "torch.randint that is a pure function of shape). Oracle: reference interpreter with straight-through quantisation written by hand "
           "using the caller's format objects - outputs and every gradient bit-equal; lossless E8M23 == untransformed module bit for bit; "
-          "simulate_fp8 == simulate_format(E4M3, E5M2); node count of the rewritten graph. primitives: quantise_fwd / quantise_bwd value and "
+          "simulate_fp8 == simulate_format(E4M3, E5M2); node count of the rewritten graph. repeat: 10-12 instances of ONE generated model class transformed and called in one process, each compared with the reference (state carried over between transforms). primitives: quantise_fwd / quantise_bwd value and "
           "gradient clauses. Non-trivial = >= 1 quantised op with a lossy format, or a keyword-argument spelling."),
     assumptions=["real TorchDynamo path (apply_transform) for every program; the backend is additionally run on the captured FX graph for the node-count clause",
                  "FPFormat.quantise itself is C13/C14's subject: here both sides call it with the same format objects"],
